@@ -22,6 +22,8 @@ C = {
    "truncation_undecodable, evidence_flip_rejected, commit (same evidence ⇒ same encoding ∨ collision of BLAKE2b/scrypt), same_id_same_content; partial: flips of a VLQ-height continuation bit are covered by execution only. Every single-bit flip and truncation of every generated valid block through the real code and the model."),
  "C07": ("proof", "Lean 4 proof (codec combinator laws) + differential correspondence",
    "Round trip and canonicity (one accepted encoding per value) for every consensus type, round trip for every wire message, id = sha256d(encoding) for decoded and fresh objects; exhaustive short VLQ strings, structured values, mutants, padded prefixes."),
+ "C10": ("proof", "Lean 4 proof of the locator function (translator) + differential correspondence of locator / inventory service + execution of real multi-node networks (partial)",
+   "Partial. Proved: the locator heights (get_recent_block_heights as translated on this run equals the model's recentHeights for every head height). Tied by correspondence: the locator a node sends and the inventory it answers with, for honest and adversarial locators, fork depths inside and beyond the dense range, batch sizes 5 and 500 (model inventoryReply = real handle_get_blocks_message_received). Not proved, validated by execution on the real code only: convergence under interleavings (2-3 real nodes, every topology, seeded random schedules to the empty-reply fixpoint), completeness of chains, transaction flood, at most one unsolicited relay per id and connection. Relay-once for blocks follows in the model from C09.redelivery_noop / relayed_once_if_new_head for unsolicited deliveries."),
  "C11": ("proof", "Lean 4 proof (well-founded recursion, functional induction) + differential correspondence",
    "feed_append, chunking_irrelevant, frames delivered once in order, bad magic / over-limit refused at that point under every fragmentation — for all states, byte strings, chunkings, handler-failure predicates and limits; real MessageReceiver vs model on all 2-/3-way cuts of short streams, random cuts, byte-by-byte."),
  "C16": ("proof", "Lean 4 proof over regenerated definitions (translator) + exhaustive evaluation",
